@@ -49,4 +49,12 @@ theorem findIndex_cons (s c : Nat) (rest : List (Nat × Nat)) (n acc : Nat) :
       if s ≤ n ∧ n < s + c then some (acc + (n - s)) else findIndex rest n (acc + c) := by
   simp [findIndex, inRange, indexHit, indexMiss]
 
+/-- `range(start, start + nobjs)`: `nobjs` iterations (none when negative) starting at `start`. -/
+theorem subCount_eq (s n : Int) : subCount s n = n.toNat := by
+  unfold subCount subsectionStop subsectionFirst
+  congr 1
+  omega
+
+theorem subsectionFirst_eq (s n : Int) : subsectionFirst s n = s := rfl
+
 end PdfVerif.Xref
